@@ -58,7 +58,7 @@ class Container:
                     self._itemclass.__name__)
             )
 
-        self._file._h5group.delete_all([item.id])
+        self._file._h5group.delete_all([item._h5group])
 
     def __iter__(self):
         for group in self._backend:
@@ -122,11 +122,11 @@ class SectionContainer(Container):
                     self._itemclass.__name__)
             )
 
-        # collect all IDs under item and send them for deletion, starting from
-        # the root block
-        secids = [s.id for s in item.find_sections()]
+        # collect all sections under item (item included) and send them for
+        # deletion, starting from the root block
+        secs = [s._h5group for s in item.find_sections()]
 
-        self._file._h5group.delete_all(secids)
+        self._file._h5group.delete_all(secs)
 
 
 class SourceContainer(Container):
@@ -145,11 +145,11 @@ class SourceContainer(Container):
                     self._itemclass.__name__)
             )
 
-        # collect all IDs under item and send them for deletion, starting from
-        # the root block
-        srcids = [s.id for s in item.find_sources()]
-        srcids.append(item.id)
-        self._file._h5group.delete_all(srcids)
+        # collect all sources under item and send them for deletion, starting
+        # from the root block
+        srcs = [s._h5group for s in item.find_sources()]
+        srcs.append(item._h5group)
+        self._file._h5group.delete_all(srcs)
 
 
 class LinkContainer(Container):
